@@ -217,10 +217,12 @@ def unlinked_fields(repo: Repo, res: CheckResult) -> None:
     if ci is None or "_fetch_linkings" not in ci.methods:
         raise AnalysisError("anchor vanished: ModelCoercerProvider._fetch_linkings")
     fn = ci.methods["_fetch_linkings"]
-    inner = [d for d in fn.body if isinstance(d, ast.FunctionDef)]
+    inner = [d for d in fn.body if isinstance(d, ast.FunctionDef)
+             and any(isinstance(t, ast.Try) and "LinkingRequest" in norm(t) for t in d.body)]
     if len(inner) != 1:
-        raise AnalysisError("_fetch_linkings: expected one nested function")
+        raise AnalysisError("_fetch_linkings: expected one nested function requesting the linking")
     f = inner[0]
+    helpers = {d.name: d for d in fn.body if isinstance(d, ast.FunctionDef) and d is not f}
     field_param = f.args.args[0].arg
     trys = [t for t in f.body if isinstance(t, ast.Try)]
     if len(trys) != 1:
@@ -256,13 +258,54 @@ def unlinked_fields(repo: Repo, res: CheckResult) -> None:
                         "and without the unlinked-optional policy allowing it: the converter is produced and the field "
                         "is silently skipped (or a required field has no value)", getattr(term[1], "lineno", h.lineno)))
     res.count("UNLINKED.handler-paths", n, 3)
-    # the policy object comes from the mediator (mandatory) for the destination of this field
-    pol = [c for c in ast.walk(h) if isinstance(c, ast.Call) and isinstance(c.func, ast.Attribute)
-           and c.func.attr == "mandatory_provide" and "UnlinkedOptionalPolicyRequest" in norm(c)]
+    # the policy object whose is_allowed is tested comes from the mediator (mandatory), requested for the destination
+    # of THIS field on THIS path (no memoisation across fields: the policy is selected by the field's location)
     res.evaluated("unlinked:policy-request", True)
-    if not pol:
+
+    def direct_policy_request(e: ast.expr, scope: ast.FunctionDef) -> Optional[ast.expr]:
+        """loc_stack expression when e is mediator.mandatory_provide(UnlinkedOptionalPolicyRequest(loc_stack=X))"""
+        if isinstance(e, ast.Call) and isinstance(e.func, ast.Attribute) and e.func.attr == "mandatory_provide" and e.args \
+                and isinstance(e.args[0], ast.Call) and norm(e.args[0].func) == "UnlinkedOptionalPolicyRequest":
+            return next((k.value for k in e.args[0].keywords if k.arg == "loc_stack"),
+                        e.args[0].args[0] if e.args[0].args else None)
+        return None
+
+    tested = [n.value for n in ast.walk(h) if isinstance(n, ast.Attribute) and n.attr == "is_allowed"]
+    problems: List[str] = []
+    if not tested:
+        problems.append("no policy is consulted")
+    for x in tested:
+        loc: Optional[ast.expr] = None
+        if isinstance(x, ast.Name):
+            srcs = [a.value for a in ast.walk(h) if isinstance(a, ast.Assign) and norm(a.targets[0]) == x.id]
+            if len(srcs) == 1:
+                loc = direct_policy_request(srcs[0], f)
+        elif isinstance(x, ast.Call):
+            loc = direct_policy_request(x, f)
+            if loc is None and isinstance(x.func, ast.Name) and x.func.id in helpers:
+                hp = helpers[x.func.id]
+                stmts = [st for st in hp.body if not (isinstance(st, ast.Expr) and isinstance(st.value, ast.Constant))]
+                if len(stmts) == 1 and isinstance(stmts[0], ast.Return) and stmts[0].value is not None:
+                    inner_loc = direct_policy_request(stmts[0].value, hp)
+                    if inner_loc is not None and isinstance(inner_loc, ast.Name) and x.args \
+                            and inner_loc.id in [a.arg for a in hp.args.args]:
+                        loc = x.args[[a.arg for a in hp.args.args].index(inner_loc.id)]
+        if loc is None:
+            problems.append(f"`{norm(x)}.is_allowed` is not the result of a policy request made on this path")
+            continue
+        # the location is this field's destination
+        if isinstance(loc, ast.Name):
+            defs = [a.value for a in ast.walk(f) if isinstance(a, ast.Assign) and norm(a.targets[0]) == loc.id]
+            if not defs or not all(field_param in norm(d) and "request.dst" in norm(d) for d in defs):
+                problems.append(f"the policy is requested for `{norm(loc)}`, which is not the destination of this field")
+        elif not (field_param in norm(loc) and "request.dst" in norm(loc)):
+            problems.append(f"the policy is requested for `{norm(loc)}`, which is not the destination of this field")
+    if problems:
         res.add(Finding("C14", "UNLINKED.policy-source", m.rel, "ModelCoercerProvider._fetch_linkings.fetch_field_linking",
-                        "policy", "the unlinked-optional policy is no longer requested from the recipe", h.lineno))
+                        "; ".join(problems),
+                        "the unlinked-optional policy must be requested from the recipe for the location of each unlinked "
+                        "field: " + "; ".join(problems) + " (a policy found for one field is applied to another)",
+                        h.lineno))
 
 
 def recipe_tail(repo: Repo, res: CheckResult) -> None:
